@@ -7,6 +7,11 @@ class Finding:
         self.fn = fn
         self.instance = instance
         self.ordinal = ordinal
+        try:
+            from .facts import readable
+            msg = readable(msg)
+        except Exception:
+            pass
         self.msg = msg
         self.file = file
         self.line = line
